@@ -33,5 +33,13 @@ CHECKS = {
          "technique": "TLC-generated designs and start points; hierarchical nets defined in spec/Hier.tla as a fixpoint over port boundaries (Net), evaluated by TLC on the observed pre-state and compared with get_hwires/get_hpins answers",
          "text": "Net(x) is defined in TLA+ as the least set of hierarchical wires closed under 'joined through an instance port boundary'; TLC checks on the model that all members of a net have the same closure, enumerates the designs and every hierarchical wire, cable, pin and port of each as a start point, and judges the implementation's answers for selection ALL / INSIDE / OUTSIDE and get_hpins(wire) against that definition.",
          "note": _IR_NOTE},
+ "C08": {"category": "model_checking", "design_ref": "5 (C08), 4 (Transform, Hier)",
+         "technique": "TLA+ model of the uniquify work-list (spec/Transform.tla) checked by TLC against C08 predicates on every design of the transform scopes; the real uniquify judged by the same predicates (elaboration by index paths, Hier.tla) on observed (pre, post) pairs",
+         "text": "Uniquify is modelled step by step (queue pop, uniqueness test, definition clone, insertion after the original, re-point) and TLC checks on the model, for every design of the scopes, that every non-leaf instance becomes the only reference of its definition while the elaborated instance tree, leaf types and the partition of leaf pins and top port bits into nets are unchanged, the result is well-formed, new definitions have fresh names in the original's library, and a second run is the identity. The same predicates are evaluated by TLC on the state observed before and after the real uniquify on each design.",
+         "note": _IR_NOTE + " No strict state conformance for the transform itself (ids and names of new definitions are not compared), only the predicates."},
+ "C09": {"category": "model_checking", "design_ref": "5 (C09), 4 (Transform, Hier)",
+         "technique": "TLA+ model of flatten (bring-to-top, redo-connections, work-list) checked by TLC against C09 predicates; the real flatten judged by the same predicates on observed (uniquified pre, post) pairs, including an exhaustive port-boundary scope",
+         "text": "Flatten is modelled as the code's work-list over the IR primitives; TLC checks OnlyLeaves, the leaf bijection (slash-joined names, leaf definition, data) and that two endpoints share a net afterwards iff they were in one hierarchical net before, on the model and on the implementation's observed states. The scope xf_port enumerates every way of tying an inner net to the bits of a bus port and a scalar port with the outer side connected, shared or absent.",
+         "note": _IR_NOTE},
 }
 NOT_APPLICABLE = {}
